@@ -598,8 +598,9 @@ def report(prop, tier, mine, results, meta, kfs, wall):
         "wall_s": round(wall, 1),
         "violations": nviol,
     }
-    os.makedirs(os.path.join(VERIF, "evidence"), exist_ok=True)
-    with open(os.path.join(VERIF, "evidence", prop + ".json"), "w") as f:
+    evdir = os.environ.get("VERIF_EVIDENCE_DIR", os.path.join(VERIF, "evidence"))
+    os.makedirs(evdir, exist_ok=True)
+    with open(os.path.join(evdir, prop + ".json"), "w") as f:
         json.dump(ev, f, indent=1)
     print("property %s tier=%s: %d units, %d/%d obligations discharged (proof), %d/%d bounded, %d violation(s), %d undecided, %.0fs"
           % (prop, tier, len(mine), discharged, obligations, b_dis, b_obl, nviol, len(undecided), wall))
